@@ -54,6 +54,9 @@ CLAIMS = {
  "C14": dict(technique="TLC enumeration of byte-range pairs and key sets with MemEq/MemSign/KeyLess + replay at page ends",
    text="Gen_MemCmp (R-model: equality, sign of the first difference with unsigned bytes, map ordering; LessIsStrictOrder model-checked) generates pairs of every length 0..130 that are equal or differ at boundary/middle positions with values on both sides of 0x80, plus key sets; replayed against InlinedMemcmpEq, InlinedMemcmp, FindMember (both overloads), HasMember and lookup after CreateMap with both operands at 13 x 13 distances from an unmapped page in production builds (the in-page fast path), exact-size heap blocks under ASan, static AVX2/SSE and dynamic dispatch.",
    note="Guard pages observe the page-end clause; the direct InlinedMemcmp calls are compiled only in static-dispatch builds.", ref="4/C14"),
+ "C06": dict(technique="trace validation: recorded (document, serialised bytes) events judged by TLC with the TLA+ recogniser JsonText and value comparison; replay over write-buffer starting capacities",
+   text="Documents are parsed from TLC-generated valid texts (all kinds, empty containers as last child, scalar roots, duplicate keys, every byte value in string values and keys, specials at block offsets, wide containers, number-kind boundaries) and re-assembled through the mutation API; each is serialised into write buffers of about 30 starting capacities around the output length and the serializer's estimate (ASan observes the unchecked writes); the recorded output is validated by TLC: JsonText!ParseText accepts it and what it denotes equals the accessor walk of the document, number kinds included and every double reading back to its exact bit pattern; the library must re-parse it to an identical walk and re-serialise the same bytes; a non-finite double planted at every number position must give the infinity error and an empty Dump.",
+   note="The independent recogniser the property asks for is the TLA+ module JsonText evaluated by TLC.", ref="4/C06"),
 }
 
 def main():
